@@ -13,6 +13,11 @@ use std::sync::Mutex;
 pub const VERIF_ROOT: &str = "/verif";
 pub const SHARDS: u64 = 16;
 
+/// where evidence and replay files are written (default /verif; mutant runs redirect it)
+pub fn out_root() -> PathBuf {
+    PathBuf::from(std::env::var("VERIF_OUT").unwrap_or_else(|_| VERIF_ROOT.to_string()))
+}
+
 #[derive(Clone, Copy, PartialEq, Eq, Debug)]
 pub enum Tier {
     Quick,
@@ -263,7 +268,7 @@ impl Report {
         if self.violations.iter().any(|v| v.sig == f.sig) {
             return;
         }
-        let dir = Path::new(VERIF_ROOT).join("replays").join(&self.id);
+        let dir = out_root().join("replays").join(&self.id);
         let _ = std::fs::create_dir_all(&dir);
         let body = json!({"property": self.id, "sub": sub, "signature": f.sig, "detail": f.detail, "case": case});
         let text = serde_json::to_string_pretty(&body).unwrap();
@@ -319,7 +324,7 @@ impl Report {
             "violations": self.violations.len(),
             "violation_signatures": self.violations.iter().map(|v| v.sig.clone()).collect::<Vec<_>>(),
         });
-        let dir = Path::new(VERIF_ROOT).join("evidence");
+        let dir = out_root().join("evidence");
         let _ = std::fs::create_dir_all(&dir);
         let path = dir.join(format!("{}.json", self.id));
         if let Err(e) = std::fs::write(&path, serde_json::to_string_pretty(&ev).unwrap()) {
